@@ -266,6 +266,20 @@ package callbacks
 //@   min-sites 2
 //@   assert no-join-of-either-kind: is(arg1, clause.From) ==> len(db.Statement.Joins) == 0 && len(fromClause.Joins) == 0 [C15]
 
+//@ # ---------- C13/C05: the error of a cascaded delete is the error of the operation ----------
+//@ # Delete with Select(association) deletes the associated rows first, hooks included: what that nested delete
+//@ # reports (a failing BeforeDelete hook of the associated model) is recorded on the operation, which then stops.
+//@ ghost nestedErrTag nestedErrBox
+//@ event call gorm.(*DB).Delete
+//@   in callbacks.DeleteBeforeAssociations
+//@   do nestedErrTag = tagof(result.Error)
+//@   do nestedErrBox = boxof(result.Error)
+//@ site cascaded-delete-error-recorded
+//@   match call gorm.(*DB).AddError
+//@   in callbacks.DeleteBeforeAssociations
+//@   min-sites 2
+//@   assert records-what-the-nested-delete-reported: arg0 == db && tagof(arg1) == nestedErrTag && boxof(arg1) == nestedErrBox [C13,C05]
+
 //@ # ---------- C13: association values saved once per operation ----------
 //@ # "Each hook fires exactly once per record": a record reached twice through associations in one Create/Update
 //@ # must be saved (and run its hooks) once. The per-operation visit map remembers what was saved; the first
